@@ -1,5 +1,70 @@
 import Sigc.Model
-import Sigc.Spec
-/-! property theorems for C17 (being written) -/
+import Sigc.Lemmas.Basic
+import Sigc.Lemmas.Frames
+/-!
+# C17 — a scoped_connection disconnects its slot exactly when it gives up ownership
+(first theorems; the complete family is being proved in Sigc/Lemmas/Step*.lean)
+-/
 namespace Sigc.C17
+open Sigc.Model
+
+/-- move construction transfers the responsibility without disconnecting: no list changes, the new
+    object holds what the source held, the source is empty -/
+theorem mvK_transfers (s s' : St) (r : String) (j i : Nat) (p : Option Nat)
+    (hi : aget s.K i = some p) (hj : aget s.K j = none) (hji : j ≠ i)
+    (h : stepSimple s (.mvK j i) = some (s', r)) :
+    r = "ok" ∧ s'.impls = s.impls ∧ s'.C = s.C ∧ s'.S = s.S ∧ aget s'.K j = some p ∧ aget s'.K i = some none := by
+  simp only [stepSimple, hi, hj] at h
+  simp at h
+  obtain ⟨rfl, rfl⟩ := h
+  refine ⟨rfl, rfl, rfl, rfl, by simp, ?_⟩
+  simp [aget_aset_other _ _ _ _ (Ne.symm hji)]
+
+/-- `swap` exchanges the two responsibilities without disconnecting -/
+theorem swapK_exchanges (s s' : St) (r : String) (i j : Nat) (a b : Option Nat)
+    (hi : aget s.K i = some a) (hj : aget s.K j = some b) (hij : i ≠ j)
+    (h : stepSimple s (.swapK i j) = some (s', r)) :
+    r = "ok" ∧ s'.impls = s.impls ∧ s'.C = s.C ∧ aget s'.K i = some b ∧ aget s'.K j = some a := by
+  simp only [stepSimple, hi, hj] at h
+  simp at h
+  obtain ⟨rfl, rfl⟩ := h
+  refine ⟨rfl, rfl, rfl, ?_, by simp⟩
+  simp [aget_aset_other _ _ _ _ hij]
+
+/-- `release()` hands the connection back without disconnecting and leaves the scoped_connection empty -/
+theorem relK_releases (s s' : St) (r : String) (c k : Nat) (p : Option Nat)
+    (hk : aget s.K k = some p) (h : stepSimple s (.relK c k) = some (s', r)) :
+    r = "ok" ∧ s'.impls = s.impls ∧ aget s'.K k = some none ∧ aget s'.C c = some p := by
+  simp only [stepSimple, hk] at h
+  simp [setConn] at h
+  obtain ⟨rfl, rfl⟩ := h
+  exact ⟨rfl, rfl, by simp, by simp⟩
+
+/-- destruction disconnects exactly the held slot (and an empty scoped_connection disconnects nothing) -/
+theorem delK_disconnects_held (s s' : St) (r : String) (k : Nat) (p : Option Nat)
+    (hk : aget s.K k = some p) (h : stepSimple s (.delK k) = some (s', r)) :
+    r = "ok" ∧ s' = (match p with
+                     | some cid => disconnectCell { s with K := adel s.K k } cid
+                     | none => { s with K := adel s.K k }) := by
+  cases p <;>
+  · simp only [stepSimple, hk] at h
+    simp at h
+    obtain ⟨rfl, rfl⟩ := h
+    exact ⟨rfl, rfl⟩
+
+/-- explicit `disconnect()` disconnects exactly the held slot and keeps holding it -/
+theorem discK_disconnects_held (s s' : St) (r : String) (k : Nat) (p : Option Nat)
+    (hk : aget s.K k = some p) (h : stepSimple s (.discK k) = some (s', r)) :
+    r = "ok" ∧ s' = (match p with
+                     | some cid => disconnectCell s cid
+                     | none => s) := by
+  cases p <;>
+  · simp only [stepSimple, hk] at h
+    simp at h
+    obtain ⟨rfl, rfl⟩ := h
+    exact ⟨rfl, rfl⟩
+
+example : ∃ s', stepSimple { K := [(0, some 7)] } (.mvK 1 0) = some (s', "ok") ∧ s'.K = [(0, none), (1, some 7)] := by
+  exact ⟨_, rfl, by simp [aset]⟩
+
 end Sigc.C17
